@@ -34,3 +34,7 @@ def run(rep: Report, repo: Repo, tier: str) -> None:
     # the processed set is a function of the set of directory entries, not of their listing order
     with rep.isolated():
         _fsr.rule_no_order_dependent_pruning(rep, repo, "C17-R9")
+    # without -r the run ends with the input directory: otherwise the one sub-directory that gets documented is the first the
+    # operating system lists
+    with rep.isolated():
+        _fsr.rule_recursion_switch(rep, repo, "C17-R10", empty_top_clause=True)
